@@ -73,14 +73,17 @@ Fixpoint skip_excess_element (v : init) : bool :=
   | IList _ => false
   end.
 
-(* string_initializer: children[i]->expr = str[i] for i < MIN(array_len, string length) *)
+(* string_initializer: every children[i]->expr = NULL (the literal initializes the whole array), then
+   children[i]->expr = str[i] for i < MIN(array_len, string length) *)
 Fixpoint string_fill (cs : list itree) (s : list nat) : option (list itree) :=
-  match cs, s with
-  | [], _ => Some []
-  | _, [] => Some cs
-  | NScalar _ :: cs', c :: s' =>
-      match string_fill cs' s' with Some r => Some (NScalar (Some (VChar c)) :: r) | None => None end
-  | _ :: _, _ :: _ => None            (* element not a scalar: not representable here *)
+  match cs with
+  | [] => Some []
+  | NScalar _ :: cs' =>
+      match string_fill cs' (tl s) with
+      | Some r => Some (NScalar (match s with c :: _ => Some (VChar c) | [] => None end) :: r)
+      | None => None
+      end
+  | _ :: _ => None                    (* element not a scalar: cannot happen, the callers test is_integer(base) *)
   end.
 
 Definition string_initializer (t : itree) (s : list nat) : option itree :=
@@ -326,7 +329,10 @@ Section Level.
     match t with
     | NArray flex e cs =>
         match v with
-        | IStr s => match string_initializer t s with Some t' => Some (t', rest) | None => None end
+        | IStr s =>                                           (* a string literal: for an array of integers only *)
+            if is_integer_elem e
+            then match string_initializer t s with Some t' => Some (t', rest) | None => None end
+            else array_initializer2 t 0 (ICons [] v rest)     (* otherwise it belongs to the first element *)
         | IList l =>
             match l, is_integer_elem e with
             | ICons [] (IStr s) INil, true =>                 (* { "..." ,? } for an array of integers *)
@@ -388,7 +394,7 @@ Section Level.
             | Some (b, en) =>
                 match designate_range cs b (S en - b) ds' v rest rest with
                 | None => None
-                | Some (cs', tok2) => array_initializer2 (NArray flex e cs') (S b) tok2   (* begin + 1 *)
+                | Some (cs', tok2) => array_initializer2 (NArray flex e cs') (S en) tok2   (* end + 1 *)
                 end
             end
         | _ => None                                           (* array index in non-array initializer *)
